@@ -182,6 +182,7 @@ type Peer struct {
 	Received        map[Req][]byte // blocks received (leech mode)
 	numPieces       int
 	NoChecks        bool // disable local property checks (hostile scripts)
+	NoWireChecks    bool // with NoChecks: also the C11 checks (the peer's idea of the torrent is not the SUT's)
 	lastReqPiece    int64
 	MetaReqs        []uint32 // ut_metadata requests received from the SUT
 	PEXRecv         int      // PEX messages received from the SUT
@@ -212,7 +213,7 @@ func (p *Peer) logf(f string, a ...any) {
 }
 
 func (p *Peer) violate(prop, oracle, f string, a ...any) {
-	if p.NoChecks && prop != "C11" {
+	if p.NoChecks && (prop != "C11" || p.NoWireChecks) {
 		return
 	}
 	simrt.Violate(prop, oracle, "peer %s: "+f, append([]any{p.Name}, a...)...)
